@@ -101,6 +101,10 @@ class Env:
         info.ensure_evaluated()
         return info.class_attrs[name]
 
+    def member_logger(self):
+        from . import libspec
+        return libspec._LOGGER
+
     def list(self, items=()):
         return PyList(list(items))
 
@@ -119,19 +123,38 @@ class Env:
         self.ctx.inputs[name] = s
         return s
 
-    def symmap(self, name, kkind, vkind, with_size=True):
+    def symmap(self, name, kkind, vkind, with_size=True, key_inv=None):
         dom = z3.Const(name + '_dom', z3.ArraySort(kkind.sort(), BoolSort))
         val = z3.Const(name + '_val', z3.ArraySort(kkind.sort(), vkind.sort()))
         size = None
         if with_size:
             size = z3.Int(name + '_size')
             self.ctx.assume(size >= 0)
-        m = SymMap(dom, val, kkind, vkind, size)
+        m = SymMap(dom, val, kkind, vkind, size, key_inv)
         self.ctx.inputs[name] = m
         return m
 
-    def kind(self, ty, cls=None):
-        return Kind(ty, self.cls(cls) if isinstance(cls, str) else cls)
+    def kind(self, ty, cls=None, inner=None):
+        return Kind(ty, self.cls(cls) if isinstance(cls, str) else cls, inner)
+
+    def alloc(self):
+        """allocation ghost: every object reference reachable in the pre-state is below alloc0"""
+        a0 = z3.Int('alloc0')
+        self.ctx.assume(a0 > 0)
+        self.ip.state.ghost['alloc0'] = a0
+        self.ip.state.ghost['alloc'] = a0
+        return a0
+
+    def measure(self, seq, name, value=None):
+        """attach a ghost measure (homomorphic in the elements; weights in lib.MEASURES) to a symbolic list"""
+        from . import lib
+        m = lib.MEASURES[name]
+        t = value if value is not None else z3.Const('%s_of_%d' % (name, id(seq) % 100000), m.sort)
+        seq.meas[name] = t
+        if m.sort == IntSort and m.nonneg:
+            self.ctx.assume(t >= 0)
+            self.ctx.assume(z3.Implies(seq.n == 0, t == 0))
+        return Sym(t, 'int' if m.sort == IntSort else 'bytes')
 
     def field(self, clsqual, attr, kind):
         """declare a field map for symbolic objects of the class"""
